@@ -249,7 +249,7 @@ func checkC08(c *Ctx) {
 			for _, sp := range m.Spawns() {
 				for _, t := range sp.Targets {
 					if t == f {
-						if !containsFn(m.ClaimSet, topFunc(sp.Fn)) {
+						if !m.inClaimUnit(topFunc(sp.Fn)) {
 							return false
 						}
 						spawned = true
@@ -258,6 +258,18 @@ func checkC08(c *Ctx) {
 				}
 			}
 			if f.Parent() != nil {
+				if !spawned {
+					// a closure started by a go statement of a function that is itself part of the
+					// claim-set unit (e.g. a helper that looks like a spawn helper)
+					eachInstr(f.Parent(), func(in ssa.Instruction) {
+						if g, ok := in.(*ssa.Go); ok {
+							if mc, ok := g.Call.Value.(*ssa.MakeClosure); ok && mc.Fn == ssa.Value(f) && m.inClaimUnit(topFunc(f.Parent())) {
+								spawned = true
+								goSite, top = in, topFunc(f.Parent())
+							}
+						}
+					})
+				}
 				return spawned
 			}
 			sites := m.callers[f]
@@ -266,7 +278,7 @@ func checkC08(c *Ctx) {
 			}
 			for _, cs := range sites {
 				if cs.IsGo {
-					if sp := m.spawnAt(cs.Instr); sp == nil || !containsFn(m.ClaimSet, topFunc(sp.Fn)) {
+					if sp := m.spawnAt(cs.Instr); sp == nil || !m.inClaimUnit(topFunc(sp.Fn)) {
 						return false
 					}
 					continue
@@ -278,7 +290,7 @@ func checkC08(c *Ctx) {
 			return true
 		}
 		if !viaSpawn(s.fn, map[*ssa.Function]bool{}) || goSite == nil {
-			if !containsFn(m.ClaimSet, topFunc(s.fn)) {
+			if !m.inClaimUnit(topFunc(s.fn)) {
 				c.viol("R1", key, s.in, "OnPromote is invoked outside the claim-set unit(s) %v and not only from a goroutine they start: a promotion callback without a claim transition", fnNames(m.ClaimSet))
 			} else {
 				c.viol("R1", key, s.in, "the OnPromote invocation is not in a goroutine started by the claim-set unit (a callback under the election mutex deadlocks API calls made from it)")
@@ -355,17 +367,21 @@ func checkC08(c *Ctx) {
 	visited := map[string]bool{}
 	follow = func(f *ssa.Function, at ssa.Instruction, chain []string, depth int) {
 		skip := func(b *ssa.BasicBlock, i int) bool {
-			l, ok := m.edgeLit(b, i)
+			l0, ok := m.edgeLit(b, i)
 			if !ok {
 				return false
 			}
-			// callback not registered
-			if l.Truth && l.S.Op == "bin" && l.S.Name == "==" && (m.symIsFieldValue(l.S.Args[0], m.OnDemote) || m.symIsFieldValue(l.S.Args[1], m.OnDemote)) && symMentions(l.S, "nil") {
-				return true
-			}
-			// the clearing section saw the claim already false
-			if m.prevClaimLit(l, false) {
-				return true
+			// the literal of the edge and what it implies when it tests a helper's result
+			// (`hasCallback` returned by the function that cleared the claim)
+			for _, l := range append([]Lit{l0}, m.resultFacts(l0)...) {
+				// callback not registered
+				if l.Truth && l.S.Op == "bin" && l.S.Name == "==" && (m.symIsFieldValue(l.S.Args[0], m.OnDemote) || m.symIsFieldValue(l.S.Args[1], m.OnDemote)) && symMentions(l.S, "nil") {
+					return true
+				}
+				// the clearing section saw the claim already false
+				if m.prevClaimLit(l, false) {
+					return true
+				}
 			}
 			return false
 		}
@@ -377,6 +393,96 @@ func checkC08(c *Ctx) {
 		if ok {
 			nSites++
 			c.ok("R2", "demotion notified: "+key, at, "every path from here to the exit of %s invokes OnDemote (skips: callback nil, claim already false)", shortFn(f))
+			return
+		}
+		// second attempt, path by path through the functions f's body is split into: a helper that
+		// notifies on some of its paths only (it is told whether to: `if notify { ... }`) and
+		// reports through its result which path it took
+		if !ok {
+			unit := m.unitFns(f)
+			permitted := func(l0 Lit) bool {
+				cands := append([]Lit{l0}, m.resultFacts(l0)...)
+				// a parameter of a single-call-site helper reads as the argument
+				if l0.S.V != nil {
+					if p, isP := l0.S.V.(*ssa.Parameter); isP {
+						if tv := m.traceValue(p); tv != ssa.Value(p) {
+							cands = append(cands, m.litOf(tv, l0.Truth, nil))
+						}
+					}
+				}
+				for _, l := range cands {
+					if l.Truth && l.S.Op == "bin" && l.S.Name == "==" && (m.symIsFieldValue(l.S.Args[0], m.OnDemote) || m.symIsFieldValue(l.S.Args[1], m.OnDemote)) && symMentions(l.S, "nil") {
+						return true
+					}
+					if m.prevClaimLit(l, false) {
+						return true
+					}
+					// NOT (wasLeader && hasCallback): every way the conjunction is false is a permitted skip
+					if ph, isPhi := l.S.V.(*ssa.Phi); isPhi && !l.Truth && l.S.Op == "phi" {
+						all := len(ph.Edges) > 0
+						for i, e := range ph.Edges {
+							pred := ph.Block().Preds[i]
+							si := 0
+							for j, sx := range pred.Succs {
+								if sx == ph.Block() {
+									si = j
+								}
+							}
+							okEdge := false
+							if k, isC := constBool(e); isC && !k {
+								for _, el := range m.EdgeLits(pred, si) {
+									if m.prevClaimLit(el, false) || (el.Truth && symMentions(el.S, "nil") && (len(el.S.Args) == 2 && (m.symIsFieldValue(el.S.Args[0], m.OnDemote) || m.symIsFieldValue(el.S.Args[1], m.OnDemote)))) {
+										okEdge = true
+									}
+								}
+							} else {
+								el := m.litOf(e, false, nil)
+								if m.prevClaimLit(el, false) || (el.Truth && el.S.Op == "bin" && symMentions(el.S, "nil") && len(el.S.Args) == 2 && (m.symIsFieldValue(el.S.Args[0], m.OnDemote) || m.symIsFieldValue(el.S.Args[1], m.OnDemote))) {
+									okEdge = true
+								}
+							}
+							if !okEdge {
+								all = false
+							}
+						}
+						if all {
+							return true
+						}
+					}
+				}
+				return false
+			}
+			silent := false
+			m.descend = func(g *ssa.Function) bool { return containsFn(unit, g) }
+			m.edgeHook = func(l Lit, flag int) (int, bool) {
+				if permitted(l) {
+					return flag, true // a permitted skip: this path needs no notification
+				}
+				return flag, false
+			}
+			first := true
+			m.exploreFrom(at, 0, func(in ssa.Instruction, flag int) (int, bool) {
+				if first {
+					first = false
+					return flag, false
+				}
+				if m.invokesFieldValue(in, m.OnDemote) || m.isOnDemoteInvocation(in) {
+					return 1, true
+				}
+				return flag, false
+			}, func(last ssa.Instruction, flag int) {
+				if ret, isRet := last.(*ssa.Return); isRet && flag == 0 && (ret.Parent() == f || !containsFn(unit, ret.Parent())) {
+					silent = true
+				}
+			})
+			m.descend, m.edgeHook = nil, nil
+			if !silent {
+				ok = true
+			}
+		}
+		if ok {
+			nSites++
+			c.ok("R2", "demotion notified: "+key, at, "every path from here to the exit of %s (through the functions its body is split into) invokes OnDemote (skips: callback nil, claim already false)", shortFn(f))
 			return
 		}
 		// the obligation moves to the callers
